@@ -2,7 +2,8 @@
 from props import matlab_scope as ms, pyprops
 
 PID = 'C10'
-KEYS = ['MatlabWrapper.wrap_enum']
+KEYS = ['MatlabWrapper.wrap_enum', 'FormatMixin._format_class_name', 'FormatMixin._clean_class_name', 'collect_namespaces',
+        'Namespace.full_namespaces']
 
 
 def replay(obj):
@@ -12,7 +13,7 @@ def replay(obj):
 def run(rep, args):
     rep.level = 'other'
     if KEYS:
-        rep.run_proofs(KEYS, ['contracts.common', 'contracts.matlab_text', 'contracts.names', 'contracts.c06'])
+        rep.run_proofs(KEYS, ['contracts.common', 'contracts.names', 'contracts.pybind', 'contracts.matlab_text', 'contracts.c06'])
     pr = rep.classify(rebaseline=args.rebaseline)
     n = 150 if rep.tier == 'quick' else 2500
     if pr['demoted'] or pr['regressions']:
